@@ -226,7 +226,7 @@ func histShard(nShards int) func(name string, r *vlib.Report) {
 			}
 		}
 		var last histResult
-		var nontrivial, withShed, nsample int
+		var nontrivial, withShed, withMust, withHot, nsample int
 		pre := "hist/" + lane + "/"
 		bfs := &vlib.BFS[Op]{
 			Name:     name,
@@ -260,6 +260,12 @@ func histShard(nShards int) func(name string, r *vlib.Report) {
 					nontrivial++
 					r.Nontrivial(name + "|" + key)
 				}
+				if last.must > 0 {
+					withMust++
+				}
+				if last.hotSheds > 0 {
+					withHot++
+				}
 				if last.sheds > 0 {
 					withShed++
 					if !disabled && nsample < 1 && len(path) >= 3 && first >= 2 && r.WantSample() {
@@ -275,6 +281,8 @@ func histShard(nShards int) func(name string, r *vlib.Report) {
 		r.Count(pre+"failures", out.Failures)
 		r.Count(pre+"states_where_overload_branch_decided_with_requests_in_flight", nontrivial)
 		r.Count(pre+"states_with_a_shed_in_history", withShed)
+		r.Count(pre+"states_with_a_mandatory_shed_in_history", withMust)
+		r.Count(pre+"states_with_a_cool_off_shed_in_history", withHot)
 		r.Count(pre+"shards", 1)
 		r.AddStates(out.States - 1)
 		r.AddTransitions(out.Transitions)
@@ -384,7 +392,7 @@ func main() {
 			if !cfg.Thorough() && !p.disabled {
 				sum["depth_bound"] = fmt.Sprintf("%d after a warm-up macro, %d from the empty shedder", p.depth, p.depth-1)
 			}
-			for _, k := range []string{"states", "transitions", "failures", "shards", "shards_cut", "states_where_overload_branch_decided_with_requests_in_flight", "states_with_a_shed_in_history"} {
+			for _, k := range []string{"states", "transitions", "failures", "shards", "shards_cut", "states_where_overload_branch_decided_with_requests_in_flight", "states_with_a_shed_in_history", "states_with_a_mandatory_shed_in_history", "states_with_a_cool_off_shed_in_history"} {
 				sum[k] = r.Counters[pre+k]
 				delete(r.Counters, pre+k)
 			}
